@@ -712,7 +712,11 @@ impl<C: Suite> Model for M16Big<C> {
             return vec![];
         }
         let mut v = vec![];
-        for kind in 0..6u8 {
+        // kinds 6..=9: instead of a point outside the subgroup, an ENTIRELY zero container (identifier 0, zero payload: an
+        // unfilled slot) is inserted into a signature share list of scheme Basic / MessageAugmentation / ProofOfPossession,
+        // or a public key share list - a zero payload is not a point encoding
+        // (shares cannot sign under MessageAugmentation, so that list cannot be made: kind 7 is left out)
+        for kind in (0..10u8).filter(|k| *k != 7) {
             // sizes around the block sizes of batched / parallel validation (4, 8, 64, 128) and the identifier limit
             for n in [5usize, 9, 64, 65, 128, 131, 255] {
                 for (pos, from_end) in [(0usize, false), (1, false), (n / 2, false), (2, true), (1, true), (0, true)] {
@@ -746,6 +750,27 @@ impl<C: Suite> Model for M16Big<C> {
         let sc = pk.sign_crypt(SignatureSchemes::Basic, &msg);
         let eg = pk.encrypt_key_el_gamal(&sk).expect("elgamal");
         let r: Result<Result<(), String>, String> = guard(|| match st.kind {
+            6 | 7 | 8 => {
+                let scheme = [SignatureSchemes::Basic, SignatureSchemes::MessageAugmentation, SignatureSchemes::ProofOfPossession][st.kind as usize - 6];
+                let mut parts: Vec<SignatureShare<C>> = shares.iter().map(|s| s.sign(scheme, &msg).unwrap()).collect();
+                let len = parts[0].as_raw_value().value_vec().len();
+                let raw = <C as Pairing>::SignatureShare::empty_share_with_capacity(len);
+                parts.insert(
+                    at,
+                    match st.kind {
+                        6 => SignatureShare::Basic(raw),
+                        7 => SignatureShare::MessageAugmentation(raw),
+                        _ => SignatureShare::ProofOfPossession(raw),
+                    },
+                );
+                Signature::<C>::from_shares(&parts).map(|_| ()).map_err(|e| e.to_string())
+            }
+            9 => {
+                let mut parts: Vec<PublicKeyShare<C>> = shares.iter().map(|s| s.public_key().unwrap()).collect();
+                let len = parts[0].0.value_vec().len();
+                parts.insert(at, PublicKeyShare(<C as Pairing>::PublicKeyShare::empty_share_with_capacity(len)));
+                PublicKey::<C>::from_shares(&parts).map(|_| ()).map_err(|e| e.to_string())
+            }
             0 | 4 => {
                 let mut parts: Vec<SignatureShare<C>> = shares.iter().map(|s| s.sign(SignatureSchemes::Basic, &msg).unwrap()).collect();
                 let raw = *parts[at].as_raw_value();
